@@ -8,6 +8,8 @@ import (
 	"sort"
 	"strings"
 	"sync"
+	"sync/atomic"
+	"time"
 )
 
 // Finding is one disagreement (model vs implementation) or property violation.
@@ -145,6 +147,51 @@ func guard(f func() string) (out string, panicMsg string) {
 		}
 	}()
 	return f(), ""
+}
+
+// hangLimit is the per-call deadline of guardT (VERIF_HANG_S overrides it, for experiments).
+var hangLimit = func() time.Duration {
+	if v := os.Getenv("VERIF_HANG_S"); v != "" {
+		var n int
+		if _, err := fmt.Sscan(v, &n); err == nil && n > 0 {
+			return time.Duration(n) * time.Second
+		}
+	}
+	return 20 * time.Second
+}()
+
+// hangSeen is set by the first call of guardT that ran into its deadline.
+var hangSeen atomic.Bool
+
+// guardT is guard with a deadline: f runs in a goroutine of its own; when it has not returned after
+// hangLimit the canonical line is "hang" (the goroutine keeps spinning - it cannot be stopped - so the
+// suite must finish up and return its report). Once a hang has been seen, further calls answer
+// "skipped" without running f, so that at most one spinning goroutine per worker piles up.
+func guardT(f func() string) (out string, panicMsg string) {
+	if hangSeen.Load() {
+		return "skipped", ""
+	}
+	type res struct{ out, pm string }
+	ch := make(chan res, 1)
+	go func() {
+		o, p := guard(f)
+		ch <- res{o, p}
+	}()
+	t := time.NewTimer(hangLimit)
+	defer t.Stop()
+	select {
+	case r := <-ch:
+		return r.out, r.pm
+	case <-t.C:
+		hangSeen.Store(true)
+		return "hang", ""
+	}
+}
+
+// hangFinding is the C05 finding of a decode entry point that did not return.
+func hangFinding(entry, detail string, input map[string]any) Finding {
+	return Finding{Kind: "property", Property: "C05", Signature: "hang:" + entry,
+		Detail: fmt.Sprintf("%s did not return within %v: %s", entry, hangLimit, detail), Input: input}
 }
 
 func short(s string, n int) string {
